@@ -239,6 +239,9 @@ def run(rep, tier):
     ]
     stats = sites_to_obligations(rep, ra, sites, rows)
     rep.info("site_stats", stats)
+    # a return to a wrong pc can land on a non-instruction: the interpreter-side frame rules of C07 (saved return pc at full width, callee pc) are obligations here too
+    import props.c07 as c07
+    c07.run(rep, tier, parts=("interp",))
     rep.trust("rustc front end / MIR / const-eval", "hashbrown, alloc (allocation failure aborts are out of scope)",
               "user-registered helpers are outside the claim")
     rep.assume("A-addr: addresses of live slices are < 2^63 and > 8*65535",
